@@ -23,7 +23,7 @@ ASSUMPTIONS = [
 
 
 def budget(tier):
-    return 10000 if tier == "quick" else 60000
+    return 16000 if tier == "quick" else 60000
 
 
 @st.composite
